@@ -133,3 +133,208 @@ func invEupRemoved(oldIstioEndpoints, incomingEndpoints, newIstioEndpoints []*Is
 			return !(0 <= j && j < n) || keyIn(incomingEndpoints, len(incomingEndpoints), oldIstioEndpoints[j].Key())
 		})
 }
+
+// ---------------------------------------------------------------------------------------------
+// C13: the endpoint index (service -> namespace -> registry shard -> endpoints)
+// ---------------------------------------------------------------------------------------------
+
+// Assumed: invalidating the xDS cache does not touch the endpoint index.
+//
+//verif:pure-method istio.io/istio/pilot/pkg/model.XdsCache.Clear
+//verif:pure-method istio.io/istio/pilot/pkg/model.XdsCache.ClearAll
+
+func shardsOf(e *EndpointIndex, svc, ns string) *EndpointShards {
+	return e.shardsBySvc[svc][ns]
+}
+
+func shardHas(p *EndpointShards, k ShardKey) bool {
+	_, ok := p.Shards[k]
+	return ok
+}
+
+// eiInv: representation invariant of the index - the maps exist, and no two services share one
+// per-namespace map.
+func eiInv(e *EndpointIndex) bool {
+	return e.shardsBySvc != nil &&
+		verif.Forall(func(s1 string) bool {
+			return verif.Forall(func(s2 string) bool {
+				return s1 == s2 || e.shardsBySvc[s1] == nil || !verif.Same(e.shardsBySvc[s1], e.shardsBySvc[s2])
+			})
+		}) &&
+		verif.Forall(func(svc string) bool {
+			m, ok := e.shardsBySvc[svc]
+			return !ok || m != nil
+		}) &&
+		verif.Forall(func(svc string) bool {
+			return verif.Forall(func(ns string) bool {
+				p, ok := e.shardsBySvc[svc][ns]
+				return !ok || p == nil || p.Shards != nil
+			})
+		})
+}
+
+// shardMapOwnedBy: no other EndpointShards object shares x's shard map (entry and map are allocated
+// together, in GetOrCreateEndpointShard and DeepCopy, and the map field is never re-assigned).
+func shardMapOwnedBy(x *EndpointShards) bool {
+	return verif.Forall(func(p *EndpointShards) bool { return p == nil || p == x || !verif.Same(p.Shards, x.Shards) })
+}
+
+// from the statement: "service deletions and cluster removals are applied as if in some sequential order
+// ... nothing from a removed registry or deleted service remains": removing one registry's shard of one
+// service removes exactly that - the shard is gone from that service's entry, every other shard of it and
+// every other service's entry keep what they had.
+//
+//verif:contract (*EndpointIndex).deleteServiceInner
+//verif:prop C13
+func ctDeleteServiceInner(e *EndpointIndex, shard ShardKey, serviceName, namespace string, preserveKeys bool) {
+	verif.Requires("index-well-formed", e != nil && eiInv(e))
+	verif.Requires("cache-present", e.cache != nil)
+	was := shardsOf(e, serviceName, namespace)
+	verif.Requires("entry-owns-its-shard-map", was == nil || shardMapOwnedBy(was))
+	e.deleteServiceInner(shard, serviceName, namespace, preserveKeys)
+	verif.Ensures("shard-removed", was == nil || !shardHas(was, shard))
+	verif.Ensures("other-shards-of-the-service-kept", was == nil || verif.Forall(func(k ShardKey) bool {
+		return k == shard || (shardHas(was, k) == verif.Old(func() bool { return shardHas(was, k) }) &&
+			verif.Same(was.Shards[k], verif.Old(func() []*IstioEndpoint { return was.Shards[k] })))
+	}))
+	verif.Ensures("other-services-untouched", verif.Forall(func(p *EndpointShards) bool {
+		return p == nil || p == was || verif.Forall(func(k ShardKey) bool {
+			return shardHas(p, k) == verif.Old(func() bool { return shardHas(p, k) }) &&
+				verif.Same(p.Shards[k], verif.Old(func() []*IstioEndpoint { return p.Shards[k] }))
+		})
+	}))
+	verif.Ensures("entry-kept-when-keys-are-preserved", !preserveKeys || shardsOf(e, serviceName, namespace) == was)
+	// the index itself: only the entry of this (service, namespace) may go, and only when it became empty
+	verif.Ensures("other-index-entries-kept", verif.Forall(func(svc string) bool {
+		return verif.Forall(func(ns string) bool {
+			return (svc == serviceName && ns == namespace) || shardsOf(e, svc, ns) == verif.Old(func() *EndpointShards { return shardsOf(e, svc, ns) })
+		})
+	}))
+	verif.Ensures("this-entry-kept-or-dropped", shardsOf(e, serviceName, namespace) == was || shardsOf(e, serviceName, namespace) == nil)
+	verif.Ensures("index-well-formed", eiInv(e))
+}
+
+//verif:contract (*EndpointIndex).GetOrCreateEndpointShard
+//verif:prop C13
+func ctGetOrCreateEndpointShard(e *EndpointIndex, serviceName, namespace string) {
+	verif.Requires("index-well-formed", e != nil && eiInv(e))
+	verif.Requires("cache-present", e.cache != nil)
+	was := shardsOf(e, serviceName, namespace)
+	_, had := e.shardsBySvc[serviceName][namespace]
+	ep, created := e.GetOrCreateEndpointShard(serviceName, namespace)
+	verif.Ensures("the-entry-of-this-service", ep == shardsOf(e, serviceName, namespace) && (ep != nil || had))
+	verif.Ensures("existing-entry-returned-as-is", !had || (ep == was && !created))
+	verif.Ensures("new-entry-is-empty", had || (created && verif.Fresh(ep) && verif.Fresh(ep.Shards) && len(ep.Shards) == 0))
+	verif.Ensures("existing-entries-untouched", verif.Forall(func(p *EndpointShards) bool {
+		return p == nil || verif.Fresh(p) || verif.Forall(func(k ShardKey) bool {
+			return shardHas(p, k) == verif.Old(func() bool { return shardHas(p, k) }) &&
+				verif.Same(p.Shards[k], verif.Old(func() []*IstioEndpoint { return p.Shards[k] }))
+		})
+	}))
+	verif.Ensures("index-well-formed", eiInv(e))
+}
+
+// from the statement: "the endpoints it is given are exactly the endpoints last reported by each registry
+// for that service ... Concurrent updates from different registries ... are applied as if in some
+// sequential order: no registry's latest report is lost": a non-empty report replaces exactly this
+// registry's shard of this service with the reported list; every other shard and service keeps what it had.
+//
+//verif:contract (*EndpointIndex).UpdateServiceEndpoints
+//verif:prop C13
+//verif:nosafety
+func ctUpdateServiceEndpoints(e *EndpointIndex, shard ShardKey, hostname, namespace string, istioEndpoints []*IstioEndpoint, logPushType bool) {
+	verif.Requires("index-well-formed", e != nil && eiInv(e))
+	verif.Requires("cache-present", e.cache != nil)
+	verif.Requires("endpoints-present", epsPresent(istioEndpoints))
+	_, had := e.shardsBySvc[hostname][namespace]
+	verif.Requires("entry-not-nil", !had || shardsOf(e, hostname, namespace) != nil)
+	verif.Requires("entry-owns-its-shard-map", !had || shardMapOwnedBy(shardsOf(e, hostname, namespace)))
+	verif.Requires("stored-endpoints-present", !had || epsPresent(shardsOf(e, hostname, namespace).Shards[shard]))
+	pt := e.UpdateServiceEndpoints(shard, hostname, namespace, istioEndpoints, logPushType)
+	now := shardsOf(e, hostname, namespace)
+	if len(istioEndpoints) == 0 {
+		verif.Ensures("empty-report-removes-the-shard", now == nil || !shardHas(now, shard))
+		verif.Ensures("empty-report-is-an-incremental-push", pt == IncrementalPush)
+		return
+	}
+	stored := now.Shards[shard]
+	verif.Ensures("report-stored-for-this-registry", now != nil && shardHas(now, shard) && len(stored) == len(istioEndpoints) &&
+		verif.Forall(func(i int) bool { return !(0 <= i && i < len(istioEndpoints)) || stored[i] == istioEndpoints[i] }))
+	verif.Ensures("other-registries-and-services-keep-their-reports", verif.Forall(func(p *EndpointShards) bool {
+		return p == nil || verif.Fresh(p) || verif.Forall(func(k ShardKey) bool {
+			return (p == now && k == shard) || (shardHas(p, k) == verif.Old(func() bool { return shardHas(p, k) }) &&
+				verif.Same(p.Shards[k], verif.Old(func() []*IstioEndpoint { return p.Shards[k] })))
+		})
+	}))
+	verif.Ensures("new-service-is-a-full-push", had || pt == FullPush)
+}
+
+// Recomputing the service accounts of an entry reads the shards and replaces only the account set.
+//
+//verif:contract updateShardServiceAccount
+//verif:prop C13
+//verif:nosafety
+func ctUpdateShardServiceAccount(shards *EndpointShards, serviceName string) {
+	verif.Requires("entry-present", shards != nil)
+	updateShardServiceAccount(shards, serviceName)
+	verif.Ensures("shards-untouched", verif.Forall(func(k ShardKey) bool {
+		return shardHas(shards, k) == verif.Old(func() bool { return shardHas(shards, k) }) &&
+			verif.Same(shards.Shards[k], verif.Old(func() []*IstioEndpoint { return shards.Shards[k] }))
+	}))
+}
+
+// allOwn: every entry of the index owns its shard map.
+func allOwn(e *EndpointIndex) bool {
+	return verif.Forall(func(svc string) bool {
+		return verif.Forall(func(ns string) bool {
+			p := e.shardsBySvc[svc][ns]
+			return p == nil || shardMapOwnedBy(p)
+		})
+	})
+}
+
+// from the statement: "nothing from a removed registry ... remains": after a registry (cluster) is
+// removed, no service's entry holds a shard of it.
+//
+//verif:contract (*EndpointIndex).DeleteShard
+//verif:prop C13
+//verif:nosafety
+func ctDeleteShard(e *EndpointIndex, shardKey ShardKey) {
+	verif.Requires("index-well-formed", e != nil && eiInv(e) && allOwn(e))
+	verif.Requires("cache-present", e.cache != nil)
+	e.DeleteShard(shardKey)
+	verif.Ensures("no-entry-holds-the-removed-registry", verif.Forall(func(svc string) bool {
+		return verif.Forall(func(ns string) bool {
+			p := e.shardsBySvc[svc][ns]
+			return p == nil || !shardHas(p, shardKey)
+		})
+	}))
+}
+
+//verif:invariant (*EndpointIndex).DeleteShard 1
+func invDeleteShardOuter(e *EndpointIndex, shardKey ShardKey) bool {
+	bySvc := e.shardsBySvc
+	return eiInv(e) && allOwn(e) && verif.Forall(func(svc string) bool {
+		return !verif.Visited(bySvc, svc) || verif.Forall(func(ns string) bool {
+			p := e.shardsBySvc[svc][ns]
+			return p == nil || !shardHas(p, shardKey)
+		})
+	})
+}
+
+//verif:invariant (*EndpointIndex).DeleteShard 2
+func invDeleteShardInner(e *EndpointIndex, shardKey ShardKey, svc string, shardsByNamespace map[string]*EndpointShards) bool {
+	bySvc := e.shardsBySvc
+	return eiInv(e) && allOwn(e) &&
+		(e.shardsBySvc[svc] == nil || verif.Same(e.shardsBySvc[svc], shardsByNamespace)) &&
+		verif.Forall(func(s string) bool {
+			return s == svc || !verif.Visited(bySvc, s) || verif.Forall(func(ns string) bool {
+				p := e.shardsBySvc[s][ns]
+				return p == nil || !shardHas(p, shardKey)
+			})
+		}) &&
+		verif.Forall(func(ns string) bool {
+			p := e.shardsBySvc[svc][ns]
+			return !verif.Visited(shardsByNamespace, ns) || p == nil || !shardHas(p, shardKey)
+		})
+}
